@@ -157,8 +157,14 @@ func (b *Broker) response(ctx context.Context, id string) {
 func (b *Broker) offline(ctx context.Context, topics *sync.Map, id string, topic string) bool {
 	if messages, ok := topics.Load(topic); ok {
 		topics.Delete(topic)
+		// close the cache: a publisher that still holds it must not append
+		// (and report success) once the remaining messages have been taken
+		var remains []Message
+		if cache, _ := messages.(*MessageCache); cache != nil {
+			remains = cache.Close()
+		}
 		if b.OnUnsubscribe != nil {
-			b.OnUnsubscribe(ctx, id, topic, messages.(*MessageCache).Take())
+			b.OnUnsubscribe(ctx, id, topic, remains)
 		}
 		b.response(ctx, id)
 		return true
@@ -219,9 +225,10 @@ func (b *Broker) Unicast(ctx context.Context, data interface{}, topic string, id
 	if topics, ok := b.messages.Load(id); ok {
 		if cache, ok := topics.(*sync.Map).Load(topic); ok && cache != nil {
 			verifPoint("publish.beforeAppend", id)
-			cache.(*MessageCache).Append(Message{Data: data, From: from})
-			b.response(ctx, id)
-			return true
+			if cache.(*MessageCache).Append(Message{Data: data, From: from}) {
+				b.response(ctx, id)
+				return true
+			}
 		}
 	}
 	return false
@@ -242,9 +249,9 @@ func (b *Broker) Broadcast(ctx context.Context, data interface{}, topic string, 
 		topics := value.(*sync.Map)
 		if cache, ok := topics.Load(topic); ok && cache != nil {
 			verifPoint("publish.beforeAppend", id)
-			cache.(*MessageCache).Append(Message{Data: data, From: from})
-			b.response(ctx, id)
-			result[id] = true
+			if result[id] = cache.(*MessageCache).Append(Message{Data: data, From: from}); result[id] {
+				b.response(ctx, id)
+			}
 		} else {
 			result[id] = false
 		}
